@@ -196,6 +196,22 @@ def correspond(ctx, scale):
                 failures.append({'key': f'{type(q).__name__}:dropout:exception', 'what': f'{type(q).__name__} with quantize_dropout (seed {seed}): {ex!r}', 'case': dict(cls=type(q).__name__, seed=seed)})
                 continue
             idx = ret[1]
+            # the same seed with return_all_codes=True must mark the same dropped entries with -1, and the decode helpers must not write
+            # into the index tensor they are given
+            if not grouped:
+                try:
+                    ret2 = q(x, rand_quantize_dropout_fixed_seed=seed, return_all_codes=True)
+                    if not torch.equal(ret2[1] == -1, idx == -1):
+                        failures.append({'key': f'{type(q).__name__}:dropout:minus-one-pattern-with-all-codes', 'what': f'{type(q).__name__} with quantize_dropout (seed {seed}): return_all_codes=True reports a different set of -1 (dropped) entries '
+                                         f'({int((ret2[1] == -1).sum())} vs {int((idx == -1).sum())})', 'case': dict(cls=type(q).__name__, seed=seed)})
+                    keep = idx.clone()
+                    q.get_codes_from_indices(idx)
+                    q.get_output_from_indices(idx)
+                    if not torch.equal(keep, idx):
+                        failures.append({'key': f'{type(q).__name__}:dropout:decode-mutates-indices', 'what': f'{type(q).__name__}: get_codes_from_indices / get_output_from_indices modified the index tensor passed in', 'case': dict(cls=type(q).__name__, seed=seed)})
+                        idx = keep
+                except Exception as ex:
+                    failures.append({'key': f'{type(q).__name__}:dropout:all-codes-exception', 'what': f'{type(q).__name__} (seed {seed}) return_all_codes / decode: {ex!r}', 'case': dict(cls=type(q).__name__, seed=seed)})
             if idx.dtype not in (torch.int32, torch.int64):
                 failures.append({'key': f'{type(q).__name__}:dropout:index-dtype', 'what': f'{type(q).__name__} with quantize_dropout (seed {seed}): indices are {idx.dtype}, not integer-typed', 'case': dict(cls=type(q).__name__, seed=seed)})
             if tuple(ret[0].shape) != tuple(x.shape):
